@@ -15,13 +15,15 @@ def ValueFree : Op → Bool
   | .lRemove _ _ | .dPop _ _ | .lDelSlice _ _ _ _ | .setSeal _ _ => true
   | _ => false
 
-/-- **C01, step theorem**: on the patched tree *every* operation of the surface — for every
+/-- **C01, step theorem**: on every tree that has the four fixes the beliefs depend on (F02, F03,
+F78, F79; `Cfg.fixedWith`: the clone-flag fix, the bulk notifications and an ambient
+`pg.allow_partial` scope are arbitrary) *every* operation of the surface — for every
 forest, target, key / index / slice / rank list, offered value (plain nested values, existing
 nodes that are moved or copied, Refs), notification on or off — maps a forest in which every
 non-root node believes its actual parent and path to such a forest. (No admissibility hypothesis
 is needed for this half of the invariant; uniqueness of node objects is the other half.) -/
-theorem C01_step (f : Forest) (n : Bool) (op : Op) (hf : f.ok = true) :
-    (stepA Cfg.patched f n op).forest.ok = true := by
+theorem C01_step_cfg {lcs nb : Bool} {scp : Option Bool} (f : Forest) (n : Bool) (op : Op) (hf : f.ok = true) :
+    (stepA (Cfg.fixedWith lcs nb scp) f n op).forest.ok = true := by
   unfold stepA
   split
   · exact hf
@@ -32,7 +34,7 @@ theorem C01_step (f : Forest) (n : Bool) (op : Op) (hf : f.ok = true) :
     cases v with
     | node kind sl aw pt items =>
       simp only [step]
-      have hv := evalVE_spec Cfg.patched none (.node kind sl aw pt items) f none false false [] hf
+      have hv := evalVE_spec (Cfg.fixedWith lcs nb scp) none (.node kind sl aw pt items) f none false false [] hf
       exact addRoot_ok _ _ (ok_of_subset hf hv.2) (okRoot_of_okAt hv.1)
     | atom a => simp only [step]; exact hf
     | fresh => simp only [step]; exact hf
@@ -129,10 +131,10 @@ theorem C01_step (f : Forest) (n : Bool) (op : Op) (hf : f.ok = true) :
           · split
             · exact hf
             · next start stop stp hidx =>
-              have hp0 := slicePrepare_ok m vs f 0 hf
+              have hp0 := slicePrepare_ok (lcs := lcs) (nb := nb) (sp := scp) m vs f 0 hf
               have run_ok : ∀ (st sp : Int) (repl : List (Bool × VE)),
-                  (match sliceLoop Cfg.patched t st sp (slicePrepare Cfg.patched m f 0 vs).1 0 repl false with
-                    | .error e => (⟨(slicePrepare Cfg.patched m f 0 vs).1, .err e⟩ : Res)
+                  (match sliceLoop (Cfg.fixedWith lcs nb scp) t st sp (slicePrepare (Cfg.fixedWith lcs nb scp) m f 0 vs).1 0 repl false with
+                    | .error e => (⟨(slicePrepare (Cfg.fixedWith lcs nb scp) m f 0 vs).1, .err e⟩ : Res)
                     | .ok (f', upd) => ⟨if (n && upd) = true then notify f' [m.id] else f', .ok⟩).forest.ok = true := by
                 intro st sp repl
                 split
@@ -324,9 +326,9 @@ theorem C01_step (f : Forest) (n : Bool) (op : Op) (hf : f.ok = true) :
           · exact hf
           · next k c hlast =>
             have h1 : ((f.mapAt t (fun _ xs => eraseKey k xs)).addRoot
-                (if Cfg.patched.detachOnRemove = true then detachFrom .dict c else c)).ok = true := by
+                (if (Cfg.fixedWith lcs nb scp).detachOnRemove = true then detachFrom .dict c else c)).ok = true := by
               apply addRoot_ok _ _ (mapAt_ok f t _ (erase_local t k) hf)
-              simp only [Cfg.patched, if_true]
+              simp only [Cfg.fixedWith, if_true]
               have hmem : (k, c) ∈ its := List.mem_of_getLast? hlast
               rw [okItems_mem] at hits
               exact detachFrom_ok .dict (hits (k, c) hmem)
@@ -347,6 +349,16 @@ theorem C01_step (f : Forest) (n : Bool) (op : Op) (hf : f.ok = true) :
         · exact hf
         · exact clearAndNotify_ok f n t m its hf hits
 
+/-- … in particular on the patched tree … -/
+theorem C01_step (f : Forest) (n : Bool) (op : Op) (hf : f.ok = true) :
+    (stepA Cfg.patched f n op).forest.ok = true :=
+  C01_step_cfg (lcs := true) (nb := true) (scp := none) f n op hf
+
+/-- … and for a call that runs inside `with pg.allow_partial(b):` (configurations with a scope). -/
+theorem C01_step_scoped (b : Bool) (f : Forest) (n : Bool) (op : Op) (hf : f.ok = true) :
+    (stepA { Cfg.patched with scopePartial := some b } f n op).forest.ok = true :=
+  C01_step_cfg (lcs := true) (nb := true) (scp := some b) f n op hf
+
 /-- **C01, full step theorem**: on the patched tree every operation maps a well-formed forest
 (beliefs agree with positions, node ids distinct and below the counter, list keys are the
 positions, dict / object keys distinct, no node object in two places) to a well-formed forest.
@@ -356,11 +368,22 @@ places during the call (the decidable mark `aliased`, reported by the driver aft
 never set in any run against the real code; with F79 unpatched `l.insert(0, l[0])` sets it, see
 `C01_counterexample_F79`). No admissibility hypothesis: a diverging call (F30) has no after-state
 (`stepA` leaves the forest alone). -/
+theorem C01_step_Full_cfg {lcs nb : Bool} {scp : Option Bool} (f : Forest) (n : Bool) (op : Op) (hf : f.wf = true)
+    (hk : wellKeyed op = true) (hal : (stepA (Cfg.fixedWith lcs nb scp) f n op).forest.aliased = false) :
+    (stepA (Cfg.fixedWith lcs nb scp) f n op).forest.wf = true := by
+  rw [wf_iff] at hf ⊢
+  exact ⟨C01_step_cfg f n op hf.1, stepA_inv _ f n op hf.2.1 hk hal, hal, stepA_pool _ f n op hf.2.2.2⟩
+
 theorem C01_step_Full (f : Forest) (n : Bool) (op : Op) (hf : f.wf = true) (hk : wellKeyed op = true)
     (hal : (stepA Cfg.patched f n op).forest.aliased = false) :
-    (stepA Cfg.patched f n op).forest.wf = true := by
-  rw [wf_iff] at hf ⊢
-  exact ⟨C01_step f n op hf.1, stepA_inv _ f n op hf.2.1 hk hal, hal, stepA_pool _ f n op hf.2.2.2⟩
+    (stepA Cfg.patched f n op).forest.wf = true :=
+  C01_step_Full_cfg (lcs := true) (nb := true) (scp := none) f n op hf hk hal
+
+/-- the full invariant for a call inside `with pg.allow_partial(b):`. -/
+theorem C01_step_Full_scoped (b : Bool) (f : Forest) (n : Bool) (op : Op) (hf : f.wf = true) (hk : wellKeyed op = true)
+    (hal : (stepA { Cfg.patched with scopePartial := some b } f n op).forest.aliased = false) :
+    (stepA { Cfg.patched with scopePartial := some b } f n op).forest.wf = true :=
+  C01_step_Full_cfg (lcs := true) (nb := true) (scp := some b) f n op hf hk hal
 
 /-- the representation half (ids distinct and bounded, key shapes) needs none of the fixes: it is
 preserved by every operation on *every* configuration of the tree — the defects F02 / F03 / F78 /
@@ -381,8 +404,8 @@ same holds after every operation of `ValueFree` — in particular the values tha
 `remove`, `clear`, `popitem` and slice deletion take out of a container become roots of the
 forest whose believed parent is none (and they are gone from the payload: `dropAll`,
 `rawDelList`, `rawDelMany`, `eraseKey`). -/
-theorem C01_removed_detached (f : Forest) (n : Bool) (op : Op) (hf : f.rootsFree = true) (hp : ValueFree op = true) :
-    (stepA Cfg.patched f n op).forest.rootsFree = true := by
+theorem C01_removed_detached_cfg {lcs nb : Bool} {scp : Option Bool} (f : Forest) (n : Bool) (op : Op) (hf : f.rootsFree = true) (hp : ValueFree op = true) :
+    (stepA (Cfg.fixedWith lcs nb scp) f n op).forest.rootsFree = true := by
   unfold stepA
   split
   · exact hf
@@ -532,9 +555,9 @@ theorem C01_removed_detached (f : Forest) (n : Bool) (op : Op) (hf : f.rootsFree
           · exact hf
           · next k c hlast =>
             have h1 : ((f.mapAt t (fun _ xs => eraseKey k xs)).addRoot
-                (if Cfg.patched.detachOnRemove = true then detachFrom .dict c else c)).rootsFree = true := by
+                (if (Cfg.fixedWith lcs nb scp).detachOnRemove = true then detachFrom .dict c else c)).rootsFree = true := by
               apply addRoot_free _ _ (mapAt_free f t _ hf)
-              simp only [Cfg.patched, if_true]
+              simp only [Cfg.fixedWith, if_true]
               exact detachFrom_parentless _ _
             simp only
             split
@@ -552,6 +575,10 @@ theorem C01_removed_detached (f : Forest) (n : Bool) (op : Op) (hf : f.rootsFree
         · exact hf
         · exact clearAndNotify_free f n t m its hf
 
+
+theorem C01_removed_detached (f : Forest) (n : Bool) (op : Op) (hf : f.rootsFree = true) (hp : ValueFree op = true) :
+    (stepA Cfg.patched f n op).forest.rootsFree = true :=
+  C01_removed_detached_cfg (lcs := true) (nb := true) (scp := none) f n op hf hp
 
 /-! ## Histories -/
 
